@@ -55,6 +55,8 @@ type handler1 struct {
 	topicIDLock       sync.Mutex
 	topicIDsExhausted bool
 	pktBuffer         []snPkts.Packet
+	// TopicIDs of the topics registered by the gateway (topic name => TopicID).
+	registrationTopicIDs map[string]uint16
 	group            *errgroup.Group
 	// Transactions initiated by the client (MessageIDs chosen by the client).
 	transactions     *transactions.TransactionStore
@@ -359,7 +361,7 @@ func (h *handler1) handleBrokerPublish(ctx context.Context, mqPublish *mqPkts.Pu
 	var snPkt snPkts.Packet
 	var nextState transactionState
 	if needsRegister {
-		topicID, err := h.newTopicID()
+		topicID, err := h.registrationTopicID(mqPublish.TopicName)
 		if err != nil {
 			return err
 		}
@@ -533,6 +535,26 @@ func (h *handler1) newTopicID() (uint16, error) {
 			return 0, ErrTopicIDsExhausted
 		}
 	}
+	return topicID, nil
+}
+
+// TopicID under which the gateway registers a topic name with the client.
+// A topic name keeps its TopicID: several messages for a not yet registered
+// topic (its REGISTER is still waiting for the REGACK) must not be registered
+// under different TopicIDs, the client knows a topic name under one TopicID only.
+// Called from the MQTT receive loop only.
+func (h *handler1) registrationTopicID(topic string) (uint16, error) {
+	if topicID, ok := h.registrationTopicIDs[topic]; ok {
+		return topicID, nil
+	}
+	topicID, err := h.newTopicID()
+	if err != nil {
+		return 0, err
+	}
+	if h.registrationTopicIDs == nil {
+		h.registrationTopicIDs = make(map[string]uint16)
+	}
+	h.registrationTopicIDs[topic] = topicID
 	return topicID, nil
 }
 
